@@ -15,7 +15,7 @@
 from __future__ import annotations
 
 import ast
-from typing import Any, Optional
+from typing import Dict, List,  Any, Optional
 
 from engine.forms import ABS, SEP_TERMINATED, FormEnv
 from engine.model import AnalysisError, Program, dotted, walk_no_nested
@@ -43,10 +43,39 @@ def run(ctx: Any, prog: Program) -> None:
     # ---- S1 ------------------------------------------------------------------------------------------------
     env = FormEnv(rp, param_forms={})
     raises = [n for n in walk_no_nested(rp) if isinstance(n, ast.Raise)]
-    guards = [n for n in walk_no_nested(rp) if isinstance(n, ast.If) and any(isinstance(x, ast.Raise) for x in n.body)]
-    if len(guards) != 1:
-        raise AnalysisError('_resolve_path: expected exactly one raising containment test')
-    test = guards[0].test
+    if len(raises) != 1:
+        raise AnalysisError('_resolve_path: expected exactly one raise')
+    # the condition under which the escape error is raised: conjunction of the tests of all enclosing ifs, with locals that are
+    # assigned once from an expression substituted (so a test split into named temporaries / nested ifs is the same test)
+    enclosing: List[ast.If] = []
+    p_ = fs.parents.get(raises[0])
+    child_: ast.AST = raises[0]
+    while p_ is not None and p_ is not rp:
+        if isinstance(p_, ast.If):
+            if child_ in p_.orelse:
+                raise AnalysisError('_resolve_path: the raise sits in an else branch (negated tests are not combined)')
+            enclosing.insert(0, p_)
+        child_ = p_
+        p_ = fs.parents.get(p_)
+    if not enclosing:
+        raise AnalysisError('_resolve_path: the raise is unconditional')
+    single: Dict[str, ast.AST] = {}
+    counts: Dict[str, int] = {}
+    for n_ in walk_no_nested(rp):
+        if isinstance(n_, ast.Assign) and len(n_.targets) == 1 and isinstance(n_.targets[0], ast.Name):
+            counts[n_.targets[0].id] = counts.get(n_.targets[0].id, 0) + 1
+            single[n_.targets[0].id] = n_.value
+
+    class _Inline(ast.NodeTransformer):
+        def visit_Name(self, node: ast.Name) -> ast.AST:
+            if isinstance(node.ctx, ast.Load) and counts.get(node.id) == 1 and node.id not in ('abs_path',) and not isinstance(single[node.id], ast.Call) or \
+                    (isinstance(node.ctx, ast.Load) and counts.get(node.id) == 1 and node.id not in ('abs_path',) and isinstance(single[node.id], ast.Call) and dotted(single[node.id].func) != 'os.path.abspath'):
+                return self.visit(ast.parse(ast.unparse(single[node.id]), mode='eval').body)
+            return node
+    tests_ = [_Inline().visit(ast.parse(ast.unparse(i_.test), mode='eval').body) for i_ in enclosing]
+    test = tests_[0] if len(tests_) == 1 else ast.BoolOp(op=ast.And(), values=tests_)
+    ast.fix_missing_locations(test)
+    guards = [enclosing[-1]]
     verdict: Optional[bool] = None
     why = ''
     for n in ast.walk(test):
@@ -80,7 +109,11 @@ def run(ctx: Any, prog: Program) -> None:
     ctx.check('C18.S3', ok, fs, raises[0] if raises else rp, '_resolve_path must raise RootEscapeError', func='RawFileSystem._resolve_path', text='raises RootEscapeError')
     ctx.shape('C18.S3', 'self.constrain_path' in ast.unparse(test), fs, guards[0], 'the escape check must be active whenever constrain_path is set (and only then)', func='RawFileSystem._resolve_path', text='gated by constrain_path')
     norm = [n for n in walk_no_nested(rp) if isinstance(n, ast.Assign) and isinstance(n.value, ast.Call) and dotted(n.value.func) in ('os.path.abspath', 'os.path.realpath')]
-    ok = len(norm) == 1 and isinstance(norm[0].value.args[0], ast.Call) and dotted(norm[0].value.args[0].func) == 'os.path.join' and dotted(norm[0].value.args[0].args[0]) == 'self.path'
+    if len(norm) == 1 and isinstance(norm[0].value.args[0], ast.Name) and counts.get(norm[0].value.args[0].id) == 1:
+        joined_expr = single[norm[0].value.args[0].id]        # `joined = os.path.join(...)` then abspath(joined)
+    else:
+        joined_expr = norm[0].value.args[0] if len(norm) == 1 else None
+    ok = len(norm) == 1 and isinstance(joined_expr, ast.Call) and dotted(joined_expr.func) == 'os.path.join' and dotted(joined_expr.args[0]) == 'self.path'
     ctx.check('C18.S3', ok, fs, norm[0] if norm else rp, 'the candidate must be abspath(join(self.path, path)): normalised *before* it is compared and it is that normalised value that is returned',
               func='RawFileSystem._resolve_path', text='abspath(join(root, path))')
     if norm:
